@@ -212,8 +212,10 @@ def run(rep: Report, tier: str) -> None:
 	# siblings are the paths with the SAME PARENT PATH (all elements but the last). After the depth sort, groups under different parents are adjacent:
 	# comparing only the depth and the parent's own index merges `0.1.x` with `1.1.x` (dict[str, list[int]] / dict[str, list[Item]] as two parameters):
 	# the first parent gets both children, the second none
+	from vlib.match import inline_simple_calls
 	def parent_form(e: ast.AST) -> str | None:
 		e = expand_use(da.node, e, depth=4) if any(x is e for x in ast.walk(da.node)) else e
+		e = inline_simple_calls(da, e)  # `self._parent_path(p)` stands for the helper's return expression
 		if isinstance(e, ast.Call) and isinstance(e.func, ast.Attribute) and e.func.attr == 'join' and e.args:
 			e = e.args[0]
 		if isinstance(e, ast.Subscript):
@@ -234,6 +236,17 @@ def run(rep: Report, tier: str) -> None:
 						forms = [parent_form(a.left), parent_form(a.comparators[0])]
 						if any(f_ is not None for f_ in forms) and not any(a is g_[0] for g_ in grp):
 							grp.append((a, forms))
+	# the same comparison as the condition of the inner loop: `while end < n and parent(paths[end]) == own: end += 1`
+	outer = [lp for lp in nodes(da.node, ast.While)]
+	for lp in outer:
+		for inner in nodes(lp, ast.While):
+			if inner is lp:
+				continue
+			for a in [x for x in ast.walk(inner.test) if isinstance(x, ast.Compare)]:
+				if len(a.ops) == 1 and isinstance(a.ops[0], (ast.Eq, ast.NotEq)) and not any(a is g_[0] for g_ in grp):
+					forms = [parent_form(a.left), parent_form(a.comparators[0])]
+					if any(f_ is not None for f_ in forms):
+						grp.append((a, forms))
 	if not grp:
 		ra.skip('reader-groups-by-whole-parent-path', da.where, '_deserialize_attrs no longer ends a sibling group by comparing parent paths in a loop')
 	for a, forms in grp:
